@@ -93,6 +93,16 @@ def run(ctx):
                "typedef list<L> L", "typedef map<string, M> M\nstruct S { 1: optional M m }", "struct S { 1: required S s }", "const list<i32> c = []\nconst map<string, list<i32>> m = {}"]
         for k, body in enumerate(odd):
             cases.append({"id": "odd-%d" % k, "files": {"/v/a.thrift": body + "\n"}, "nonstrict": False})
+        # N included files that define types of one name, all used in containers of the root: the generator's helper names
+        # (_List_Foo_, _List_Foo_1_, ...) have to be told apart however many there are; also names of primitives
+        for name in ("Foo", "String", "I32", "Binary"):
+            for n in (2, 3, 4, 6):
+                files = {"/v/t%d.thrift" % i: "struct %s { 1: optional i32 v%d }\nenum K { A = %d }\ntypedef list<%s> L\n" % (name, i, i, name) for i in range(n)}
+                root = "".join('include "./t%d.thrift"\n' % i for i in range(n))
+                root += "struct Root {\n" + "".join("  %d: optional list<t%d.%s> a%d\n  %d: optional map<string, t%d.%s> b%d\n  %d: optional set<t%d.K> c%d\n  %d: optional list<t%d.L> d%d\n"
+                                                    % (4 * i + 1, i, name, i, 4 * i + 2, i, name, i, 4 * i + 3, i, i, 4 * i + 4, i, i) for i in range(n)) + "}\n"
+                files["/v/a.thrift"] = root
+                cases.append({"id": "samename-%s-%d" % (name, n), "files": files, "nonstrict": False})
         cases += default_cycle_cases(ctx, rng)
         extra = []
         rand_args = ["-builtin", "-corpus", corpus, "-random", "4000" if ctx.quick() else "300000"]
